@@ -188,6 +188,7 @@ func runC12(r *Run) {
 	c12Schemas(r, n/3)
 	c12Errors(r)
 	c12BigInts(r)
+	c12BigReals(r)
 }
 
 // c12NestedMaps: maps whose values are sets (of uuids or strings; empty or with two and more elements: a
@@ -597,6 +598,47 @@ func c12BigInts(r *Run) {
 		_ = json.Unmarshal([]byte(`{"type":"integer"}`), &col)
 		if nv, err := ovsdb.OvsToNative(&col, d["n"]); err != nil || nv != k {
 			bad("native", fmt.Sprint(nv, err))
+		}
+	}
+}
+
+// c12BigReals: a real whose value is a whole number beyond 2^53 is written by the encoder as a digit string
+// that the exact decoder reads as an integer: at the level of untyped values it comes back as an int of the
+// same value, and every typed conversion (real column, set of reals, map with real keys or values) has to turn
+// it back into the float64 it was
+func c12BigReals(r *Run) {
+	for _, f := range []float64{1 << 62, 1.2e18, -(1 << 60), 9007199254740994, 1 << 53, 1e19, 1.5e17 + 0.0} {
+		cs := map[string]interface{}{"real": fmt.Sprint(f)}
+		r.Case("bigreal", fmt.Sprint(f))
+		bad := func(where, got string) {
+			cs["where"] = where
+			r.Violation("bigreal", cs, got, fmt.Sprint(f), true, "a real with a whole value beyond 2^53 does not survive encoding, decoding and conversion to its native type ("+where+")", "")
+		}
+		for _, tc := range []struct {
+			where, schema string
+			value         interface{}
+			want          interface{}
+		}{
+			{"real column", `{"type":"real"}`, f, f},
+			{"set of reals", `{"type":{"key":"real","min":0,"max":"unlimited"}}`, ovsdb.OvsSet{GoSet: []interface{}{f, 0.5}}, []float64{f, 0.5}},
+			{"optional real", `{"type":{"key":"real","min":0,"max":1}}`, ovsdb.OvsSet{GoSet: []interface{}{f}}, &f},
+			{"map real->real", `{"type":{"key":"real","value":"real","min":0,"max":"unlimited"}}`, ovsdb.OvsMap{GoMap: map[interface{}]interface{}{f: f}}, map[float64]float64{f: f}},
+		} {
+			var col ovsdb.ColumnSchema
+			if err := json.Unmarshal([]byte(tc.schema), &col); err != nil {
+				bad(tc.where, err.Error())
+				continue
+			}
+			enc, _ := json.Marshal(ovsdb.Row{"c": tc.value})
+			var d ovsdb.Row
+			if err := json.Unmarshal(enc, &d); err != nil {
+				bad(tc.where, err.Error())
+				continue
+			}
+			nv, err := ovsdb.OvsToNative(&col, d["c"])
+			if err != nil || !reflect.DeepEqual(nv, tc.want) {
+				bad(tc.where, fmt.Sprintf("%s -> %#v -> %#v (%v)", enc, d["c"], nv, err))
+			}
 		}
 	}
 }
